@@ -17,6 +17,7 @@
            setMinUnbond <e>  setPct <p>  setFactors <maxF> <cE> <cF> <minE> <minF>  collectUndist
            pause  resume  hubWl <user> <addr>  hubRm <user> <addr>  advance <blocks> <epochs>
            calcAsUser <amt> <rps> <comp> <cur> <owner>     (the view called by a plain account: must fail)
+           calcAsProxy <amt> <rps> <comp> <cur> <owner>    (… by the whitelisted contract p1 in a transaction: must fail too)
            bad …                                            (malformed call: must fail)
   views  : Q <n> calc <amt> <rps> <comp> <cur> <owner>      (VM query: evaluated on a twin world by the harness, discarded here)
 -/
@@ -92,6 +93,7 @@ def parseOp : List String → Option Op
   | ["hubRm", u, a] => do pure (.hubRemove (← parseAddr u) (← parseAddr a))
   | ["advance", b, e] => do pure (.advance (← b.toNat?) (← e.toNat?))
   | ["calcAsUser", a, r, c, cur, o] => do pure (.calc false (← a.toNat?) (← parseAttrs r c cur o))
+  | ["calcAsProxy", a, r, c, cur, o] => do pure (.calc false (← a.toNat?) (← parseAttrs r c cur o))
   | ["calc", a, r, c, cur, o] => do pure (.calc true (← a.toNat?) (← parseAttrs r c cur o))
   | _ => none
 
